@@ -133,6 +133,13 @@ const VARIANT_NAMES: [&str; 10] = ["A", "B", "Cc", "Dee", "r#Type", "E_1", "None
 const TYPE_NAMES: [&str; 8] = ["Foo", "Bar", "Baz_q", "r#Raw", "X", "Option", "Vec", "PhantomData"];
 const MODULE_NAMES: [&str; 5] = ["m", "inner", "deep_mod", "v2", "types"];
 const REPLACEMENTS: [&str; 5] = ["renamed", "Other", "r#crate_like", "_u", "Z"];
+/// new member names for `#[scale_info(rename = "..")]`: the attribute takes a string literal, so
+/// the name need not be an identifier (keywords, dashes, dots, blanks, digits first, empty, raw
+/// prefix, non-ASCII, quotes) - it is reported verbatim
+const RENAMES: [&str; 16] = [
+    "renamed", "Other", "_u", "Z", "type", "crate", "block-number", "2nd", "extra.data", "max weight", "", " padded ", "r#type", "\u{e9}t\u{e9}",
+    "say \"hi\"", "a::b",
+];
 pub const DISCRIMINANTS: [(&str, u8); 12] = [
     ("5", 5), ("0", 0), ("255", 255), ("0x10", 16), ("2 + 3", 5), ("1 << 3", 8), ("300 - 50", 250), ("(7)", 7), ("10 / 2", 5), ("3 * 4", 12), ("0b1010", 10), ("100 + 100 - 1", 199),
 ];
@@ -183,7 +190,7 @@ fn field(ty: BoxedStrategy<TE>, o: &DefOpts) -> BoxedStrategy<FieldD> {
     let rich = o.rich_attrs;
     let enc = o.encode;
     let encoded_as = o.encoded_as;
-    (ty, any::<u16>(), if rich { docs().boxed() } else { Just(vec![]).boxed() }, any::<bool>(), prop::sample::select(REPLACEMENTS.to_vec()))
+    (ty, any::<u16>(), if rich { docs().boxed() } else { Just(vec![]).boxed() }, any::<bool>(), prop::sample::select(RENAMES.to_vec()))
         .prop_map(move |(ty, k, docs, spaced, rn)| {
             let mut attr = FieldAttr::default();
             let mut ty = ty;
@@ -208,7 +215,7 @@ fn field(ty: BoxedStrategy<TE>, o: &DefOpts) -> BoxedStrategy<FieldD> {
                 _ => {}
             }
             if rich && k % 7 == 0 {
-                attr.rename = Some(rn.trim_start_matches("r#").to_string());
+                attr.rename = Some(rn.to_string());
             }
             FieldD { name: None, ty, attr, docs, spaced: rich && spaced, qualified: rich && k % 5 == 1 }
         })
